@@ -3,15 +3,13 @@
      include/tapkee/routines/isomap.hpp, under both heap configurations
        TAPKEE_USE_PRIORITY_QUEUE   (std::priority_queue, lazy deletion)  -> *_pq
        TAPKEE_USE_FIBONACCI_HEAP   (fibonacci_heap, decrease_key)        -> *_fib
-   and of the matrix Isomap hands to the eigensolver
-     include/tapkee/methods/isomap.hpp + utils/matrix.hpp (centerMatrix)  -> iso_*
+   (the matrix Isomap hands to the eigensolver is modelled in Dijkstra_IsoModel.v).
    No proofs in this file.
 
    Numbers.  Dijkstra only adds and compares: edge weights are integers (Z); any
    finite set of dyadic doubles scales to integers, and the harness serves an
    integer-valued table so double arithmetic is exact.  Infinity
    (std::numeric_limits<double>::max() in the code) is `None`, never a number.
-   The centring stage divides (means): it is modelled entrywise over Q.
 
    Heaps.  The priority queue is a bag of (vertex,key) pairs; `pick` returns
    SOME entry of minimal key (std::priority_queue does not specify which one
@@ -25,7 +23,7 @@
    which the landmark overload copies literally: it sets the frontier flag of
    vertex k (the ROW index), not of vertex landmarks[k].  Both are parameters
    (`src`, `fidx`) of the single-row functions below. *)
-From Coq Require Import List ZArith Bool Arith QArith.
+From Coq Require Import List ZArith Bool Arith.
 Import ListNotations.
 Local Open Scope Z_scope.
 
@@ -332,61 +330,3 @@ Definition refill {A : Type} (x : A) (old : list A) (N : nat) : list A :=
 (* ---------- table-driven distance callback used by the extraction ---------- *)
 Definition table_w (t : list (list Z)) (u v : nat) : Z :=
   nth v (nth u t []) 0.
-
-(* ====================================================================== *)
-(* Isomap's matrix for the eigensolver (methods/isomap.hpp, utils/matrix.hpp) *)
-(* ====================================================================== *)
-Local Open Scope Q_scope.
-
-Fixpoint sumn (n : nat) (f : nat -> Q) : Q :=
-  match n with
-  | O => 0
-  | S m => sumn m f + f m
-  end.
-
-Definition qn (n : nat) : Q := inject_Z (Z.of_nat n).
-
-Section Centre.
-  Variable n : nat.
-  Variable M : nat -> nat -> Q.
-
-  (* matrix.colwise().mean(): mean of each column *)
-  Definition colmean (j : nat) : Q := sumn n (fun i => M i j) / qn n.
-  Definition rowmean (i : nat) : Q := sumn n (fun j => M i j) / qn n.
-  (* matrix.mean() *)
-  Definition grandmean : Q := sumn n (fun i => sumn n (fun j => M i j)) / (qn n * qn n).
-
-  (* centerMatrix as written:
-       col_means = matrix.colwise().mean().transpose();  grand_mean = matrix.mean();
-       matrix.array() += grand_mean;
-       matrix.rowwise() -= col_means.transpose();   // entry (i,j) loses col_means[j]
-       matrix.colwise() -= col_means;               // entry (i,j) loses col_means[i]  *)
-  Definition center_code (i j : nat) : Q :=
-    M i j + grandmean - colmean j - colmean i.
-
-  (* the mathematical double centring J M J, J = I - 11^T/n, entrywise *)
-  Definition double_centre (i j : nat) : Q :=
-    M i j - rowmean i - colmean j + grandmean.
-End Centre.
-
-Definition sq_mat (G : nat -> nat -> Q) (i j : nat) : Q := G i j * G i j.
-Definition sym_avg (M : nat -> nat -> Q) (i j : nat) : Q := (M i j + M j i) / 2.
-
-(* methods/isomap.hpp as shipped: square, centerMatrix, *= -0.5 *)
-Definition iso_shipped (n : nat) (G : nat -> nat -> Q) (i j : nat) : Q :=
-  - (1 # 2) * center_code n (sq_mat G) i j.
-
-(* after fixes/F23_isomap_symmetrise.patch: square, average with the transpose,
-   centerMatrix, *= -0.5 *)
-Definition iso_fixed (n : nat) (G : nat -> nat -> Q) (i j : nat) : Q :=
-  - (1 # 2) * center_code n (sym_avg (sq_mat G)) i j.
-
-(* classical MDS of the geodesics: -1/2 J S J, S = (G.^2 + (G.^2)^T)/2 *)
-Definition mds_ref (n : nat) (G : nat -> nat -> Q) (i j : nat) : Q :=
-  - (1 # 2) * double_centre n (sym_avg (sq_mat G)) i j.
-
-(* geodesic table (finite entries) as a Q-valued function; used by the extraction *)
-Definition table_q (t : list (list Z)) (i j : nat) : Q :=
-  inject_Z (nth j (nth i t []) 0%Z).
-Definition mat_of (n : nat) (f : nat -> nat -> Q) : list (list Q) :=
-  map (fun i => map (fun j => Qred (f i j)) (seq 0 n)) (seq 0 n).
